@@ -33,6 +33,9 @@ type Rewrite struct {
 	Rel      string // computed relation (Computed, TTU)
 	Tupleset string // TTU
 	Ch       []*Rewrite
+	// NoParen renders a nested operator without its mandatory parentheses
+	// (an injected structural defect; never set on valid models).
+	NoParen bool `json:",omitempty"`
 }
 
 // Restriction is one entry of a direct assignment.
@@ -84,6 +87,9 @@ type Model struct {
 	Module string
 	Types  []TypeDef
 	Conds  []Condition
+	// Hdr selects injected header defects: 0 = the one header the model has,
+	// 1 = model header then module header, 2 = module then model, 3 = none.
+	Hdr int `json:",omitempty"`
 }
 
 // ---- constructors ---------------------------------------------------------
@@ -100,7 +106,7 @@ func (r *Rewrite) Clone() *Rewrite {
 	if r == nil {
 		return nil
 	}
-	c := &Rewrite{Kind: r.Kind, Rel: r.Rel, Tupleset: r.Tupleset}
+	c := &Rewrite{Kind: r.Kind, Rel: r.Rel, Tupleset: r.Tupleset, NoParen: r.NoParen}
 	for _, ch := range r.Ch {
 		c.Ch = append(c.Ch, ch.Clone())
 	}
@@ -154,6 +160,9 @@ func (r *Rewrite) String() string {
 	parts := make([]string, len(r.Ch))
 	for i, c := range r.Ch {
 		parts[i] = c.String()
+	}
+	if r.NoParen {
+		op = "NOPAREN-" + op
 	}
 	return op + "(" + strings.Join(parts, ", ") + ")"
 }
